@@ -119,7 +119,14 @@ func tsDocs() []Doc {
 		{Number: 888, AtMs: 5000},
 		{Number: 889, AtMs: 5500, Nat: teletext.French},
 	}})
-	return []Doc{{"ts-two-pages-888-889", "ts", two, true}, {"ts-french-3", "ts", fr, true}, {"ts-german-serial-2", "ts", de, true}, {"ts-english-1", "ts", en, true}}
+	// the same service with PAT/PMT repeated before every PES (a receiver that cannot rewind still finds them)
+	var repPages []teletext.Page
+	for i := 0; i < 24; i++ {
+		repPages = append(repPages, teletext.Page{Number: 888, AtMs: int64(i+1) * 1000, Rows: []teletext.RowText{{Row: 22, Text: fmt.Sprintf("cue %d", i)}}})
+	}
+	rep := teletext.Spec{Pages: append(repPages, teletext.Page{Number: 888, AtMs: 25000})}.Stream()
+	rep.TablesEvery = 1
+	return []Doc{{"ts-tables-repeated", "ts", rep.Bytes(), true}, {"ts-two-pages-888-889", "ts", two, true}, {"ts-french-3", "ts", fr, true}, {"ts-german-serial-2", "ts", de, true}, {"ts-english-1", "ts", en, true}}
 }
 
 const ssaV4Plus = "[Script Info]\nTitle: t\nScriptType: v4.00+\nWrapStyle: 0\nPlayResX: 640\nPlayResY: 480\nTimer: 100.0000\n\n[V4+ Styles]\nFormat: Name, Fontname, Fontsize, PrimaryColour, SecondaryColour, OutlineColour, BackColour, Bold, Italic, Underline, StrikeOut, ScaleX, ScaleY, Spacing, Angle, BorderStyle, Outline, Shadow, Alignment, MarginL, MarginR, MarginV, Encoding\nStyle: Default,Arial,20,&H00FFFFFF,&H000000FF,&H80000000,&H00000000,-1,0,0,0,100,100,0,0,1,2,2,2,10,10,10,1\n\n[Events]\nFormat: Layer, Start, End, Style, Name, MarginL, MarginR, MarginV, Effect, Text\nDialogue: 1,0:00:01.00,0:00:02.50,Default,Bob,0,0,0,,{\\an8}{\\i1}top{\\i0} plain\\Nsecond, line\nDialogue: 0,1:00:03.00,1:00:04.00,Default,,1,2,3,fx,last\n"
